@@ -22,7 +22,7 @@ def run(tier, seed, replay=None):
         ck.mc(DIR, "GpAlgs", "NC_low.cfg", expect_violation="LowFinal")
         ck.mc(DIR, "GpAlgs", "NC_peel.cfg", expect_violation="PeelFinal")
         cases = [drv.gen(rng, nmax=5 if i % 3 == 0 else 9) for i in range(500 if tier == "quick" else 8000)]
-    res = run_tasks("gprops", "run_gp", cases, timeout=30)
+    res = run_tasks("gprops", "run_gp", cases, timeout=120)
     trs = []
     for r, c in zip(res, cases):
         if not isinstance(r, dict) or "events" not in r:
